@@ -627,11 +627,13 @@ class atom(boolean.AndRestriction):
             )
 
         # If one of us is a glob match and the other a ~ we match if the glob
-        # matches the ~ (ignoring a revision on the glob):
-        if self.op == "=*" and other.op == "~":
-            return _glob_match(self.version, other.fullver)
-        if other.op == "=*" and self.op == "~":
-            return _glob_match(other.version, self.fullver)
+        # matches the ~. A glob with a revision only matches that one
+        # version, which the ~ has to match:
+        if {self.op, other.op} == {"=*", "~"}:
+            glob, tilde = (self, other) if self.op == "=*" else (other, self)
+            if glob.revision:
+                return restricts.VersionMatch("~", tilde.version).match(glob)
+            return _glob_match(glob.fullver, tilde.fullver)
 
         # If we get here at least one of us is a <, <=, > or >=:
         if self.op in ("<", "<=", ">", ">="):
@@ -675,15 +677,13 @@ class atom(boolean.AndRestriction):
                 other
             ):
                 return True
+            # A glob with a revision matches nothing but its own version:
+            if other.revision:
+                return False
             if "<" in ranged.op:
                 # Remaining cases where this intersects: there is a
                 # package smaller than ranged.fullver and
                 # other.fullver that they both match.
-
-                # If other.revision is not None or 0 then other does not match
-                # anything smaller than its own fullver:
-                if other.revision:
-                    return False
 
                 # If other.revision is None or 0 then we can always
                 # construct a package smaller than other.fullver by
